@@ -1,18 +1,19 @@
-use std::collections::HashMap;
-fn order() -> Vec<u32> {
-    let mut m: HashMap<u32, u32> = HashMap::new();
-    for i in 0..20 { m.insert(i, i); }
-    m.keys().copied().collect()
-}
+use verif_harness::e2_handler::*;
+use inputlayer::{Tuple, Value};
 fn main() {
-    let name = std::ffi::CString::new("verif_entropy_pin16").unwrap();
-    let p = unsafe { libc::dlsym(libc::RTLD_DEFAULT, name.as_ptr()) };
-    if !p.is_null() { let f: unsafe extern "C" fn(i32) = unsafe { std::mem::transmute(p) }; unsafe { f(1) }; }
-    let a = std::thread::spawn(order).join().unwrap();
-    let b = std::thread::spawn(order).join().unwrap();
-    let c = std::thread::spawn(|| { let _x: HashMap<u8,u8> = HashMap::new(); order() }).join().unwrap();
-    println!("same across fresh threads: {} ; differs after one more RandomState: {}", a == b, a != c);
-    let name = std::ffi::CString::new("verif_entropy_pin16_served").unwrap();
-    let p = unsafe { libc::dlsym(libc::RTLD_DEFAULT, name.as_ptr()) };
-    if !p.is_null() { let f: unsafe extern "C" fn() -> i64 = unsafe { std::mem::transmute(p) }; println!("served {}", unsafe { f() }); }
+    let env = Env::new("probe");
+    env.create_kg("A");
+    let i = |x: i64| Value::Int64(x);
+    env.insert("A", "e", vec![Tuple::new(vec![i(1), i(2)]), Tuple::new(vec![i(2), i(3)])]);
+    env.insert("A", "m", vec![Tuple::new(vec![i(3)])]);
+    for r in ["+p(X, Y) <- e(X, Y)", "+p(X, Z) <- p(X, Y), e(Y, Z)", "+u(X, Y) <- p(X, Y), !m(Y), X < 2", "+w(X, 7) <- e(X, _)"] {
+        println!("{:?}", messages(&env.query_program(Some("A"), r)));
+    }
+    for q in [".why ?u(X, Y)", ".why ?p(1, Y)", ".why ?w(X, Y)", ".why_not u(1, 3)", ".why_not p(3, 1)", ".why_not p(1, 3)"] {
+        let r = env.query_program(Some("A"), q).unwrap();
+        println!("== {q}: rows {:?}", r.rows.iter().map(|t| format!("{:?}", t.values)).collect::<Vec<_>>());
+        for g in r.proof_trees.unwrap_or_default() {
+            println!("{}", serde_json::to_string(&g).unwrap());
+        }
+    }
 }
